@@ -144,7 +144,56 @@ def check_levels(ctx):
     c17.check_snapshot(ctx)
 
 
+# (function, file, loop variable, first level, bound, why)
+LEVEL_LOOPS = [
+    ("ldb_version_add_iterators", VS, "level", "1", 7, "an iterator reads every deeper level (level 0 is added file by file)"),
+    ("ldb_version_for_each_overlapping", VS, "level", "1", 7, "a lookup searches every deeper level"),
+    ("ldb_versions_add_files", VS, "level", "0", 7, "the live set holds the files of every level"),
+    ("ldb_versions_approximate_offset", VS, "level", "0", 7, "sizes are summed over every level"),
+    ("ldb_versions_write_snapshot", VS, "level", "0", 7, "the snapshot re-emits every level"),
+    ("builder_save_to", VS, "level", "0", 7, "a new version carries every level over"),
+    ("builder_init", VS, "level", "0", 7, "the builder has a slot for every level"),
+    ("builder_clear", VS, "level", "0", 7, "the builder releases every level"),
+    ("ldb_version_init", VS, "level", "0", 7, "a version has a file list for every level"),
+    ("ldb_version_clear", VS, "level", "0", 7, "a version releases the files of every level"),
+    ("ldb_compaction_is_base_level_for_key", VS, "lvl", "(c->level + 2)", 7, "a key is at its base level only if no deeper level holds it"),
+    ("ldb_versions_finalize", VS, "level", "0", 6, "the deepest level is never a compaction source"),
+    ("ldb_versions_max_next_level_overlapping_bytes", VS, "level", "1", 6, "pairs (level, level+1)"),
+    ("ldb_property", DB, "level", "0", 7, "reports list every level"),
+]
+
+
+def check_level_loops(ctx):
+    """Loops over the levels cover exactly the levels they are meant to: a
+    bound copied from a neighbouring loop (`LDB_NUM_LEVELS - 1`) silently
+    drops the deepest level from iterators, lookups, the live set or the
+    MANIFEST snapshot - and no test fills the deepest level."""
+    from ..rules import incr_events
+    for fname, file, var, first, bound, why in LEVEL_LOOPS:
+        f = ctx.fn(fname, file)
+        heads = []
+        for blk in f.blocks.values():
+            t = blk.term
+            if t is not None and t.get("k") in ("ForStmt", "WhileStmt", "DoStmt") and "cond" in t:
+                c = strip_casts(t["cond"])
+                while isinstance(c, dict) and c.get("k") == "un" and c.get("op") == "!":
+                    c = strip_casts(c["x"])
+                if isinstance(c, dict) and c.get("k") == "bin" and key(c["l"]) == var and const_val(c["r"]) is not None:
+                    heads.append((c["op"], const_val(c["r"])))
+                elif isinstance(c, dict) and c.get("k") == "bin" and key(c["r"]) == var and const_val(c["l"]) is not None:
+                    heads.append(({"<": ">", ">": "<", "<=": ">=", ">=": "<="}.get(c["op"], c["op"]), const_val(c["l"])))
+        ctx.require(len(heads) >= 1, "%s: loop over `%s` not found" % (fname, var))
+        lasts = sorted({(v - 1 if op in ("<", ">=") else v) for op, v in heads})
+        from ..program import vars_in
+        inits = sorted({key(e["rhs"]) for b, i, e in f.events("asg") if key(e["lhs"]) == var and e["op"] == "=" and var not in vars_in(e["rhs"])} |
+                       {key(e["init"]) for b, i, e in f.events("decl") if e["n"] == var and "init" in e})
+        ok = lasts == [bound - 1] and inits == [first] and bool(incr_events(f, var, 1))
+        ctx.check(ok, "T2-all-levels", fname, f.name, f.loc, "levels %s .. %d, one by one: %s" % (first, bound - 1, why),
+                  "the loop over `%s` runs from %s to %s (expected %s .. %d): %s" % (var, inits, lasts, first, bound - 1, why))
+
+
 def check(ctx):
+    check_level_loops(ctx)
     check_builder(ctx)
     check_bounds(ctx)
     check_levels(ctx)
